@@ -19,7 +19,7 @@ from vlib import tolerance, evgen, evmon, evfind
 PROPERTY = 'C01'
 LEVEL = 'exploration'
 RULE = ('typed random evaluable DAGs (G-ev: ~45 operator kinds incl. loops, scatter/gather, diagonals, powers, bool/int/float/complex, '
-        'shared subterms, 1-3 outputs) plus systematic operator pairs/triples Outer(Middle(Inner(leaf))) and Op(balanced sum of arrays scattered by shared index maps), also under a loop sum; k in-domain argument '
+        'shared subterms, 1-3 outputs) plus systematic operator pairs/triples Outer(Middle(Inner(leaf))) and Op(balanced sum of arrays scattered by shared index maps), also under a loop sum, and sibling pairs f(K1(x), K2(y)); k in-domain argument '
         'assignments each; non-trivial = >=3 inner nodes and the simplifier changed the expression; distinct = operator skeleton')
 ASSUMPTIONS = ['shadow numpy interpreter (vlib/evgen.py) is the reference; it is self-tested against plain numpy and cross-checked by the un-simplified evaluation on every case',
                'termination is a bounded-progress claim: <= 1e6 rewrite steps on generator-sized DAGs (5e4 nominates, a second run with 1e6 convicts); a line-budget overrun without cycle evidence is an unresolved suspect',
@@ -45,6 +45,11 @@ def plan(tier, seed):
     sc = [(k, inloop) for inloop in (False, True) for k in [''] + ops]
     for j in range(0, len(sc), 50):
         units.append(dict(kind='scatter', chains=sc[j:j + 50], reps=2 if tier == 'quick' else 12))
+    # sibling pairs: f(K1(x), K2(y)) with independently drawn parameters (binary rewrite rules between two results of the same / of different operations)
+    sib = [(k, k) for k in ops] + [(a, b) for a in evgen.CHAINABLE for b in evgen.CHAINABLE if a != b]
+    sib = [(a, b, f) for a, b in sib for f in (('mul', 'add') if tier == 'quick' else ('mul', 'add', 'sub', 'max', 'div'))]
+    for j in range(0, len(sib), 80):
+        units.append(dict(kind='siblings', chains=sib[j:j + 80], reps=2 if tier == 'quick' else 6))
     if tier == 'thorough':
         ops3 = evgen.CHAINABLE
         triples = [(a, b, c) for a in ops3 for b in ops3 for c in ops3]
@@ -320,6 +325,20 @@ def run_units(units, ctx):
                 check_case(case, (ctx.seed, 'c01', i), res, ctx.tier, stepmon=stepmon and i % 4 == 0)
                 if i % 1499 == 0:
                     res.sample(dict(kind='random', index=i, desc=evgen.describe(case)))
+        elif u['kind'] == 'siblings':
+            for ci, (k1, k2, f) in enumerate(u['chains']):
+                for rep in range(u['reps']):
+                    if ctx.expired():
+                        res.count('skipped_deadline')
+                        continue
+                    key = (ctx.seed, 'c01sib', k1, k2, f, rep)
+                    try:
+                        case = evgen.siblings(rng_for(*key), k1, k2, f)
+                    except evgen.Reject:
+                        res.count('chain_not_constructible')
+                        continue
+                    res.add('siblings_built', f'{k1}/{k2}/{f}')
+                    check_case(case, key, res, ctx.tier, nassign=1, stepmon=stepmon)
         elif u['kind'] == 'scatter':
             for ci, (name, inloop) in enumerate(u['chains']):
                 for rep in range(u['reps']):
@@ -383,7 +402,7 @@ def finalize(m, tier, seed):
                max_rewrite_steps=m.maxima.get('max_rewrite_steps', 0), rewrite_steps_total=c.get('rewrite_steps_total', 0),
                wall_nominated=c.get('wall_nominated', 0), slow_but_terminating=c.get('slow_but_terminating', 0), inconclusive_wall=c.get('inconclusive_wall', 0),
                slow_suspect_unresolved=c.get('slow_suspect_unresolved', 0),
-               operator_kinds=len([k for k in c if k.startswith('op/')]), chains_built=len(m.sets.get('chains_built', ())), scatter_sum_kinds_built=len(m.sets.get('scatter_built', ())), chain_not_constructible=c.get('chain_not_constructible', 0),
+               operator_kinds=len([k for k in c if k.startswith('op/')]), chains_built=len(m.sets.get('chains_built', ())), scatter_sum_kinds_built=len(m.sets.get('scatter_built', ())), sibling_combinations_built=len(m.sets.get('siblings_built', ())), chain_not_constructible=c.get('chain_not_constructible', 0),
                rule_pairs_called=len(simp_rules), rule_pairs_fired=len(simp_rules & fired), rule_pairs_never_fired=sorted(simp_rules - fired)[:60],
                step_monitor={k[8:]: v for k, v in c.items() if k.startswith('stepmon/')}, step_monitor_rules=len(m.sets.get('stepmon_rules', ())),
                shadow_or_translation_suspect=c.get('shadow_or_translation_suspect', 0), original_fails_to_evaluate=c.get('original_fails_to_evaluate', 0),
